@@ -244,6 +244,9 @@ impl<'de> Deserialize<'de> for Key {
 #[derive(Debug)]
 pub struct Prio {
     pub v: i64,
+    /// a field ignored by Ord / Eq (the analogue of Key::tag): tells *which* of two equal
+    /// priorities an operation stored or returned
+    pub stamp: u32,
     inst: u64,
 }
 impl Prio {
@@ -251,6 +254,15 @@ impl Prio {
     pub fn new(v: i64) -> Prio {
         Prio {
             v,
+            stamp: 0,
+            inst: new_inst(2),
+        }
+    }
+    #[inline]
+    pub fn stamped(v: i64, stamp: u32) -> Prio {
+        Prio {
+            v,
+            stamp,
             inst: new_inst(2),
         }
     }
@@ -261,7 +273,7 @@ impl Prio {
 impl Clone for Prio {
     fn clone(&self) -> Prio {
         tick(FaultKind::ClonePrio);
-        Prio::new(self.v)
+        Prio::stamped(self.v, self.stamp)
     }
 }
 impl Drop for Prio {
